@@ -35,8 +35,8 @@ for _n, _d, _m in [(2, None, 1), (2, 1, 2)]:
 contract('C17/constraints.and_/n=3,dim=1,maxiter=2', ['C17'], K + 'and_._constraint')(lambda h: _and(h, 3, 1, 2))
 
 
-def _or(h, n, dim, maxiter):
-    cs = [h.fn('c%d' % i, ret='same') for i in range(n)]
+def _or(h, n, dim, maxiter, inplace=False):
+    cs = [h.fn('c%d' % i, ret='same', inplace=inplace) for i in range(n)]
     onexit = h.fn('ONEXIT', ret='same', log='exit')
     onfail = h.fn('ONFAIL', ret='same', log='fail')
     cf = h.call(h.get(K + 'or_'), *cs, maxiter=maxiter, onexit=onexit, onfail=onfail)
@@ -55,8 +55,8 @@ def _or(h, n, dim, maxiter):
     h.cover('failure', 'len(fl) == 1', fl=fl)
 
 
-def _not(h, dim, maxiter):
-    c = h.fn('c', ret='same')
+def _not(h, dim, maxiter, inplace=False):
+    c = h.fn('c', ret='same', inplace=inplace)
     onexit = h.fn('ONEXIT', ret='same', log='exit')
     onfail = h.fn('ONFAIL', ret='same', log='fail')
     cf = h.call(h.get(K + 'not_'), c, maxiter=maxiter, onexit=onexit, onfail=onfail)
@@ -82,3 +82,12 @@ for _n, _d, _m in [(1, None, 2), (2, None, 2), (2, 1, 2)]:
 for _d, _m in [(None, 2), (1, 3)]:
     contract('C17/constraints.not_/dim=%s,maxiter=%d' % (_d or 'any', _m), ['C17'], K + 'not_._constraint')(
         lambda h, d=_d, m=_m: _not(h, d, m))
+
+# members that update their argument in place and return it (everything symbolic.generate_constraint builds is one):
+# the fixed-point test must compare two different vectors, never an object with itself
+for _n, _d, _m in [(1, None, 2), (2, None, 2), (2, 1, 3)]:
+    contract('C17/constraints.or_/in-place-members,n=%d,dim=%s,maxiter=%d' % (_n, _d or 'any', _m), ['C17', 'C03'],
+             K + 'or_._constraint')(lambda h, n=_n, d=_d, m=_m: _or(h, n, d, m, inplace=True))
+for _d, _m in [(None, 2), (1, 3)]:
+    contract('C17/constraints.not_/in-place-member,dim=%s,maxiter=%d' % (_d or 'any', _m), ['C17', 'C03'],
+             K + 'not_._constraint')(lambda h, d=_d, m=_m: _not(h, d, m, inplace=True))
